@@ -270,6 +270,10 @@ def phi(cond, a, b):
     # `None if v is None else v` is v
     if isinstance(cond, tuple) and cond[0] == "is" and cond[2] == NONE and a == NONE and b == cond[1]:
         return b
+    # `0 if len(S) == 0 else sum(S)` is sum(S): the sum of an empty sequence is 0
+    if isinstance(cond, tuple) and len(cond) == 3 and cond[0] == "cmp" and cond[1] == "==" and isinstance(cond[2], tuple) and cond[2][:2] == ("f", "len") \
+            and a == ZERO and isinstance(b, tuple) and b[:2] == ("f", "sum") and b[2] == cond[2][2] and not b[3]:
+        return b
     # two list / tuple literals of the same length: join element-wise
     if isinstance(a, tuple) and isinstance(b, tuple) and a and b and a[0] in ("l", "t") and b[0] in ("l", "t") and len(a[1]) == len(b[1]) and len(a[1]) > 0:
         return (a[0], tuple(phi(cond, x, y) for x, y in zip(a[1], b[1])))
